@@ -22,7 +22,7 @@ inductive R (α : Type) where
   | ok (a : α)
   | err (e : Err)
   | panic
-  deriving Repr
+  deriving DecidableEq, Repr
 
 /-- `msgp.Uint64Size` -/
 def uint64Size : Nat := 9
